@@ -1,16 +1,16 @@
 #!/bin/bash
 # usage: confirm_seed.sh <worktree> <outfile>   -- confirm a seeded change: suite passes with it, demo fails with / passes without
-wt=$1; out=$2
+wt=$1; out=$2; crate=${3:-automerge}
 cd $wt/rust || exit 3
 {
 echo "== worktree $wt"; git -C $wt status --short | head
 echo "== suite with change (demo excluded)"
 cargo nextest run --workspace --no-fail-fast --offline --test-threads 8 -E 'not binary(seeded_demo)' 2>&1 | grep -E "Summary|FAIL|tests run" | head -20
 echo "== demo with change (expect failure)"
-cargo test --offline -p automerge --test seeded_demo 2>&1 | grep -E "^test result|^test .*(FAILED|ok)" | head
-git -C $wt stash -q
+cargo test --offline -p $crate --test seeded_demo 2>&1 | grep -E "^test result|^test .*(FAILED|ok)" | head
+git -C $wt diff > $wt/.seed.patch; git -C $wt checkout -q -- rust
 echo "== demo without change (expect pass)"
-cargo test --offline -p automerge --test seeded_demo 2>&1 | grep -E "^test result|^test .*(FAILED|ok)" | head
-git -C $wt stash pop -q
+cargo test --offline -p $crate --test seeded_demo 2>&1 | grep -E "^test result|^test .*(FAILED|ok)" | head
+git -C $wt apply $wt/.seed.patch
 git -C $wt status --short | head -5
 } > $out 2>&1
